@@ -1,6 +1,8 @@
 import EgVerif.Proofs.Delivery
 import EgVerif.Proofs.SessionQueueExt
 import EgVerif.Proofs.SessionQueueIR
+import EgVerif.Proofs.FanoutIR
+import EgVerif.Proofs.ProcessPublishIR
 import EgVerif.Gen.FactsC15
 /-!
 # C15 — MQTT delivery: every eligible subscriber gets each message; QoS1 at-least-once
@@ -461,30 +463,32 @@ example : (deliver (fun _ => Sess.init) (fun _ => true) (fun _ => false) [("c1",
 
 /-! ### Extension mqtt: regenerated tie by translation (irlib, `harness/factextract/facts_c15_ir.go`)
 
-`Gen/FactsC15IR.lean` is translated from the bodies of the Go functions on every run; the theorems state that
+`Gen/FactsC15IR.lean` (session.go), `Gen/FactsC15IRb.lean` (broker.go / topic.go) and `Gen/FactsC15IRp.lean`
+(client.go) are translated from the bodies of the Go functions on every run — three modules, so that a failed
+extraction of one function breaks (and names) only its own obligations; the theorems state that
 the translation equals the hand-written model for all inputs (proofs: `Proofs/SessionQueueIR.lean`). -/
 
 /-- `Broker.sendMsgToClient` (loop body: QoS comparison with `continue`, `getClient == nil` skip, `session.publish`
 with the message's QoS; nil subscriber map ⇒ nobody). -/
 theorem send_regenerated_from_source (conn : Client → Bool) (subs : List (Client × Nat)) (qos : Nat) :
-    Gen.FactsC15IR.extractionFailed = false ∧
-    Gen.FactsC15IR.sendIR conn subs false qos = (send conn qos subs).map (fun c => (c, qos)) ∧
-    Gen.FactsC15IR.sendIR conn subs true qos = [] :=
+    Gen.FactsC15IRb.extractionFailed = false ∧
+    Gen.FactsC15IRb.sendIR conn subs false qos = (send conn qos subs).map (fun c => (c, qos)) ∧
+    Gen.FactsC15IRb.sendIR conn subs true qos = [] :=
   ⟨by decide, Delivery.send_regenerated_from_source conn subs qos⟩
 
 /-- **`topicNode.addClients`** (site of fix bcc037f): the generated loop is `Model.Topic.addMax` (per client the
 larger of the QoS already in the result map and the node's), and the map that successive `addClients` calls build
 from the empty map is `collapseMax` of all hits — the map `send_all_eligible_any_order` quantifies over. -/
 theorem addClients_regenerated_from_source (cls ans : List (Client × Nat)) (hits : List (Client × Nat)) (c : Client) :
-    Gen.FactsC15IR.extractionFailed = false ∧
-    Gen.FactsC15IR.addClientsIR cls ans = addMax cls ans ∧
+    Gen.FactsC15IRb.extractionFailed = false ∧
+    Gen.FactsC15IRb.addClientsIR cls ans = addMax cls ans ∧
     addMax cls (addMax hits []) = addMax (hits ++ cls) [] ∧
     alGet c (addMax hits []) = alGet c (collapseMax hits) :=
   ⟨by decide, Topic.addClients_regenerated_from_source cls ans, Topic.addMax_append hits cls [],
    Topic.addMax_eq_collapseMax_map hits c⟩
 
-example : Gen.FactsC15IR.addClientsIR [("c", 0), ("d", 1)] [("c", 1)] = [("c", 1), ("d", 1)] ∧
-    Gen.FactsC15IR.addClientsIR [("c", 1)] [("c", 0)] = [("c", 1)] := by decide
+example : Gen.FactsC15IRb.addClientsIR [("c", 0), ("d", 1)] [("c", 1)] = [("c", 1), ("d", 1)] ∧
+    Gen.FactsC15IRb.addClientsIR [("c", 1)] [("c", 0)] = [("c", 1)] := by decide
 
 /-- `Session.getPacketFromMsg` (repaired: ids still in `pending` are skipped by a loop of at most 65 536 steps;
 the packet carries the id found, the uint16 counter steps past it) -/
@@ -502,10 +506,18 @@ theorem publish_regenerated_from_source (online full : Bool) (m : Msg) (s : Sess
 /-- `processPublish` (client.go): PUBACK with the inbound packet's own id iff QoS 1 (the function `pipelineWrapper`
 calls after limiter and pipeline passed; `puback_same_id_iff_passed` is about the whole path `onPublish`) -/
 theorem processPublish_regenerated_from_source (qos i : Nat) :
-    Gen.FactsC15IR.extractionFailed = false ∧
-    Gen.FactsC15IR.processPublishIR qos i = (onPublish true .ok qos i).puback.toList ∧
-    Gen.FactsC15IR.processPublishIR qos i = (onPublish true .notConfigured qos i).puback.toList :=
+    Gen.FactsC15IRp.extractionFailed = false ∧
+    Gen.FactsC15IRp.processPublishIR qos i = (onPublish true .ok qos i).puback.toList ∧
+    Gen.FactsC15IRp.processPublishIR qos i = (onPublish true .notConfigured qos i).puback.toList :=
   ⟨by decide, SessionQueue.processPublish_regenerated_from_source qos i⟩
+
+/-- **Inbound PUBLISH handling keeps no memory between packets** (regenerated fact): `processPublish`,
+`pipelineWrapper`, `checkPublishLimit` and the PUBLISH entry of `processPacketMap` assign no field of `*Client` —
+so whether a packet is handed to the pipeline and acknowledged depends on that packet and on the limiter /
+pipeline verdicts only (the model `onPublish` has exactly these arguments): a packet id, a DUP flag or an
+earlier acknowledgement cannot make the broker skip the backend. -/
+theorem inbound_publish_memoryless :
+    Gen.FactsC15.extractionFailed = false ∧ Gen.FactsC15.inboundPublishWritesClientFields = [] := by decide
 
 /-- `Session.puback` -/
 theorem puback_regenerated_from_source (i : Nat) (s : Sess) :
@@ -518,7 +530,7 @@ theorem doResend_regenerated_from_source (online : Bool) (s : Sess) :
   ⟨by decide, SessionQueue.doResend_regenerated_from_source online s⟩
 
 /-- non-vacuity: the generated definitions compute on a concrete state -/
-example : Gen.FactsC15IR.sendIR (fun c => c != "c3") [("c1", 0), ("c3", 1), ("c2", 1)] false 1 = [("c2", 1)] := by
+example : Gen.FactsC15IRb.sendIR (fun c => c != "c3") [("c1", 0), ("c3", 1), ("c2", 1)] false 1 = [("c2", 1)] := by
   decide
 example : (Gen.FactsC15IR.doResendIR true ⟨[(2, m2)], [0, 2], 3⟩).2 = [pkt 2 m2] := by decide
 
